@@ -182,7 +182,7 @@ fn call(s: &Stream, from: &'static str, mode: Mode, known: bool) -> CallSpec {
 fn streams(cx: &mut Ctx, count: u64, seed: u64) {
     for i in 0..count {
         let mut rng = Rng::derive(seed, "streams", i);
-        let fmt = *rng.pick(&["json", "json", "yaml", "yaml", "msgpack", "msgpack", "toml"]);
+        let fmt = ["json", "yaml", "msgpack", "json", "yaml", "msgpack", "toml"][(i % 7) as usize];
         let s = gen_stream(&mut rng, fmt, 6, i % 9 == 0);
         let det = detected_as(&s.bytes);
         let det_known = det == Some(s.fmt);
@@ -244,7 +244,7 @@ fn histories(cx: &mut Ctx, count: u64, seed: u64) {
 fn faults(cx: &mut Ctx, count: u64, seed: u64) {
     for i in 0..count {
         let mut rng = Rng::derive(seed, "faults", i);
-        let fmt = *rng.pick(&["json", "yaml", "msgpack", "toml", "json", "yaml"]);
+        let fmt = ["json", "yaml", "msgpack", "toml"][(i % 4) as usize]; // every source format in turn
         let s = gen_stream(&mut rng, fmt, 3, false);
         if s.bytes.len() > 400 {
             continue;
@@ -393,7 +393,7 @@ fn unknown(cx: &mut Ctx, count: u64, seed: u64) {
 fn lag(cx: &mut Ctx, count: u64, seed: u64) {
     for i in 0..count {
         let mut rng = Rng::derive(seed, "lag", i);
-        let fmt = *rng.pick(&STREAMING);
+        let fmt = STREAMING[(i % 3) as usize];
         let n = rng.range(10, 120);
         let opts = GenOpts { max_depth: 2, max_width: 3, ..GenOpts::streaming() };
         let vals: Vec<V> = (0..n).map(|_| val::gen_doc(&mut rng, &opts)).collect();
